@@ -4,145 +4,184 @@
    from the toolchain and the source (Gen/LintTables.v, Inst/Inst_C17.v).  A text is the list of its decoded characters;
    [decode s] is the text of the byte string s. *)
 From Coq Require Import List NArith Bool.
-From GV Require Import Model.Lint Proofs.LintP Gen.LintTables Inst.Inst_C17.
+From GV Require Import Model.Lint Proofs.LintP Proofs.LintLitP Gen.LintTables Inst.Inst_C17.
 Import ListNotations.
 
 (* the reading of a text: code up to the amount of white space and letter case, every character of a string literal,
    quoted identifier or comment exactly (white space that ends a -- comment is layout) *)
-Definition lex_reading := reading space upper.
+Definition lex_reading := reading idstart idpart space upper.
 
 (* ---- meaning: the FULL statement, for ALL texts: every rewriter keeps the reading ---- *)
-Theorem C17_l001_tokens_preserved : forall t, lex_reading (l001_fix t) = lex_reading t.
-Proof. exact (l001_keeps_reading space upper). Qed.
-Theorem C17_l002_tokens_preserved : forall t, lex_reading (l002_fix t) = lex_reading t.
-Proof. exact (l002_keeps_reading space upper). Qed.
+Theorem C17_l001_tokens_preserved : forall t, lex_reading (i_l001_fix t) = lex_reading t.
+Proof. exact (l001_keeps_reading idstart idpart id_facts space upper). Qed.
+Theorem C17_l002_tokens_preserved : forall t, lex_reading (i_l002_fix t) = lex_reading t.
+Proof. exact (l002_keeps_reading idstart idpart id_facts space upper). Qed.
 Theorem C17_l003_tokens_preserved : forall t, lex_reading (i_l003_fix t) = lex_reading t.
-Proof. exact (fun t => l003_keeps_reading space upper sp_nodelim 1 t (le_n 1)). Qed.
-Theorem C17_l010_tokens_preserved : forall t, lex_reading (l010_fix t) = lex_reading t.
-Proof. exact (l010_keeps_reading space upper). Qed.
+Proof. exact (fun t => l003_keeps_reading idstart idpart id_facts space upper sp_nodelim 1 t (le_n 1)). Qed.
+Theorem C17_l010_tokens_preserved : forall t, lex_reading (i_l010_fix t) = lex_reading t.
+Proof. exact (l010_keeps_reading idstart idpart id_facts space upper). Qed.
 Theorem C17_l007_tokens_preserved : forall t, lex_reading (i_l007_fix t) = lex_reading t.
-Proof. exact (l007_keeps_reading letter digit space upper keywords_tab up_plain up_idem up_nows). Qed.
+Proof. exact (l007_keeps_reading idstart idpart id_facts letter digit space upper keywords_tab up_plain up_id up_idem up_nows). Qed.
 Theorem C17_cli_tokens_preserved : forall t, lex_reading (i_cli_fix t) = lex_reading t.
-Proof. exact (cli_keeps_reading letter digit space upper keywords_tab up_plain up_idem up_nows sp_nodelim). Qed.
+Proof. exact (cli_keeps_reading idstart idpart id_facts letter digit space upper keywords_tab up_plain up_id up_idem up_nows sp_nodelim). Qed.
 
 Theorem C17_format_tokens_preserved : forall tab spaces final t, lex_reading (i_format tab spaces final t) = lex_reading t.
-Proof. exact (format_keeps_reading space upper sp_nodelim). Qed.
+Proof. exact (format_keeps_reading idstart idpart id_facts space upper sp_nodelim). Qed.
 
 (* ---- convergence: applying a fix twice is applying it once (all texts) ---- *)
-Theorem C17_l001_fix_idempotent : forall t, l001_fix (l001_fix t) = l001_fix t.
-Proof. exact l001_fix_idempotent. Qed.
-Theorem C17_l002_fix_idempotent : forall t, l002_fix (l002_fix t) = l002_fix t.
-Proof. exact l002_fix_idempotent. Qed.
+Theorem C17_l001_fix_idempotent : forall t, i_l001_fix (i_l001_fix t) = i_l001_fix t.
+Proof. exact (l001_fix_idempotent idstart idpart id_facts). Qed.
+Theorem C17_l002_fix_idempotent : forall t, i_l002_fix (i_l002_fix t) = i_l002_fix t.
+Proof. exact (l002_fix_idempotent idstart idpart id_facts). Qed.
 Theorem C17_l003_fix_idempotent : forall t, i_l003_fix (i_l003_fix t) = i_l003_fix t.
-Proof. exact (fun t => l003_fix_idempotent_mx space sp_nodelim 1 t (le_n 1)). Qed.
-Theorem C17_l010_fix_idempotent : forall t, l010_fix (l010_fix t) = l010_fix t.
-Proof. exact l010_fix_idempotent. Qed.
+Proof. exact (fun t => l003_fix_idempotent_mx idstart idpart id_facts space sp_nodelim 1 t (le_n 1)). Qed.
+Theorem C17_l010_fix_idempotent : forall t, i_l010_fix (i_l010_fix t) = i_l010_fix t.
+Proof. exact (l010_fix_idempotent idstart idpart id_facts). Qed.
 Theorem C17_l007_fix_idempotent : forall t, i_l007_fix (i_l007_fix t) = i_l007_fix t.
-Proof. exact (l007_fix_idempotent letter digit upper keywords_tab up_plain up_letter up_idem). Qed.
+Proof. exact (l007_fix_idempotent idstart idpart id_facts letter digit upper keywords_tab up_plain up_id up_letter up_idem). Qed.
 
 (* the output of the CLI loop (L001; L002; L003; L010; L007) is a fixed point of every one of the five fixers, so a second
    run of  lint --auto-fix  changes nothing *)
 Theorem C17_cli_fixed_points : forall t,
-  l001_fix (i_cli_fix t) = i_cli_fix t /\ l002_fix (i_cli_fix t) = i_cli_fix t /\ i_l003_fix (i_cli_fix t) = i_cli_fix t /\
-  l010_fix (i_cli_fix t) = i_cli_fix t /\ i_l007_fix (i_cli_fix t) = i_cli_fix t.
-Proof. exact (cli_fixed_points letter digit space upper keywords_tab up_plain up_letter up_idem up_nows sp_nodelim (proj1 space_32_9)). Qed.
+  i_l001_fix (i_cli_fix t) = i_cli_fix t /\ i_l002_fix (i_cli_fix t) = i_cli_fix t /\ i_l003_fix (i_cli_fix t) = i_cli_fix t /\
+  i_l010_fix (i_cli_fix t) = i_cli_fix t /\ i_l007_fix (i_cli_fix t) = i_cli_fix t.
+Proof. exact (cli_fixed_points idstart idpart id_facts letter digit space upper keywords_tab up_plain up_id up_letter up_idem up_nows sp_nodelim (proj1 space_32_9)). Qed.
 Theorem C17_cli_fix_idempotent : forall t, i_cli_fix (i_cli_fix t) = i_cli_fix t.
-Proof. exact (cli_fix_idempotent letter digit space upper keywords_tab up_plain up_letter up_idem up_nows sp_nodelim (proj1 space_32_9)). Qed.
+Proof. exact (cli_fix_idempotent idstart idpart id_facts letter digit space upper keywords_tab up_plain up_id up_letter up_idem up_nows sp_nodelim (proj1 space_32_9)). Qed.
 
 (* formatting a formatted document changes nothing (textDocument/formatting, every option setting) *)
 Theorem C17_format_idempotent : forall tab spaces final t,
   i_format tab spaces final (i_format tab spaces final t) = i_format tab spaces final t.
-Proof. exact (format_idempotent space upper sp_nodelim (proj1 space_32_9) (proj1 (proj2 space_32_9))). Qed.
+Proof. exact (format_idempotent idstart idpart id_facts space upper sp_nodelim (proj1 space_32_9) (proj1 (proj2 space_32_9))). Qed.
 
 (* the same on bytes, for every text made of ASCII bytes (decode / encode are inverse there; for other texts the lifting
    needs decode (encode t) = t on rewriter outputs, which is exercised by the fixed-point oracle, not proved) *)
-Theorem C17_bytes_l001_idempotent : forall s, ascii_bytes s = true -> onbytes l001_fix (onbytes l001_fix s) = onbytes l001_fix s.
-Proof. exact (onbytes_idem l001_fix ascl_l001 l001_fix_idempotent). Qed.
-Theorem C17_bytes_l002_idempotent : forall s, ascii_bytes s = true -> onbytes l002_fix (onbytes l002_fix s) = onbytes l002_fix s.
-Proof. exact (onbytes_idem l002_fix ascl_l002 l002_fix_idempotent). Qed.
+Theorem C17_bytes_l001_idempotent : forall s, ascii_bytes s = true -> onbytes i_l001_fix (onbytes i_l001_fix s) = onbytes i_l001_fix s.
+Proof. exact (onbytes_idem i_l001_fix (ascl_l001 idstart idpart id_facts) C17_l001_fix_idempotent). Qed.
+Theorem C17_bytes_l002_idempotent : forall s, ascii_bytes s = true -> onbytes i_l002_fix (onbytes i_l002_fix s) = onbytes i_l002_fix s.
+Proof. exact (onbytes_idem i_l002_fix (ascl_l002 idstart idpart id_facts) C17_l002_fix_idempotent). Qed.
 Theorem C17_bytes_l003_idempotent : forall s, ascii_bytes s = true -> onbytes i_l003_fix (onbytes i_l003_fix s) = onbytes i_l003_fix s.
-Proof. exact (onbytes_idem i_l003_fix (ascl_l003 space) C17_l003_fix_idempotent). Qed.
-Theorem C17_bytes_l010_idempotent : forall s, ascii_bytes s = true -> onbytes l010_fix (onbytes l010_fix s) = onbytes l010_fix s.
-Proof. exact (onbytes_idem l010_fix ascl_l010 l010_fix_idempotent). Qed.
+Proof. exact (onbytes_idem i_l003_fix (ascl_l003 idstart idpart id_facts space) C17_l003_fix_idempotent). Qed.
+Theorem C17_bytes_l010_idempotent : forall s, ascii_bytes s = true -> onbytes i_l010_fix (onbytes i_l010_fix s) = onbytes i_l010_fix s.
+Proof. exact (onbytes_idem i_l010_fix (ascl_l010 idstart idpart id_facts) C17_l010_fix_idempotent). Qed.
 Theorem C17_bytes_l007_idempotent : forall s, ascii_bytes s = true -> onbytes i_l007_fix (onbytes i_l007_fix s) = onbytes i_l007_fix s.
-Proof. exact (onbytes_idem i_l007_fix (ascl_l007 letter digit upper keywords_tab up_ascii) C17_l007_fix_idempotent). Qed.
+Proof. exact (onbytes_idem i_l007_fix (ascl_l007 idstart idpart id_facts letter digit upper keywords_tab up_ascii) C17_l007_fix_idempotent). Qed.
 Theorem C17_bytes_cli_idempotent : forall s, ascii_bytes s = true -> onbytes i_cli_fix (onbytes i_cli_fix s) = onbytes i_cli_fix s.
-Proof. exact (onbytes_idem i_cli_fix (ascl_cli letter digit space upper keywords_tab up_ascii) C17_cli_fix_idempotent). Qed.
+Proof. exact (onbytes_idem i_cli_fix (ascl_cli idstart idpart id_facts letter digit space upper keywords_tab up_ascii) C17_cli_fix_idempotent). Qed.
 Theorem C17_bytes_format_idempotent : forall tab spaces final s, ascii_bytes s = true ->
   onbytes (i_format tab spaces final) (onbytes (i_format tab spaces final) s) = onbytes (i_format tab spaces final) s.
 Proof.
-  exact (fun tab spaces final => onbytes_idem (i_format tab spaces final) (ascl_format space upper tab spaces final)
+  exact (fun tab spaces final => onbytes_idem (i_format tab spaces final) (ascl_format idstart idpart id_facts space upper tab spaces final)
                                    (C17_format_idempotent tab spaces final)).
 Qed.
 
 (* ---- re-lint: no violation of the rule remains after its fix ---- *)
-Theorem C17_l001_fix_clears : forall t, l001_check (l001_fix t) = [].
-Proof. exact l001_fix_clears. Qed.
-Theorem C17_l002_fix_clears : forall t, l002_check (l002_fix t) = [].
-Proof. exact l002_fix_clears. Qed.
+Theorem C17_l001_fix_clears : forall t, i_l001_check (i_l001_fix t) = [].
+Proof. exact (l001_fix_clears idstart idpart id_facts). Qed.
+Theorem C17_l002_fix_clears : forall t, i_l002_check (i_l002_fix t) = [].
+Proof. exact (l002_fix_clears idstart idpart id_facts). Qed.
 Theorem C17_l007_fix_clears : forall t, i_l007_check (i_l007_fix t) = [].
-Proof. exact (l007_fix_clears letter digit upper keywords_tab up_plain up_letter up_idem). Qed.
+Proof. exact (l007_fix_clears idstart idpart id_facts letter digit upper keywords_tab up_plain up_id up_letter up_idem). Qed.
 (* L010 reports byte columns: for the texts [decode] produces (well-formed characters) *)
 Theorem C17_decode_wf : forall s, wft (decode s).
 Proof. exact decode_wf. Qed.
-Theorem C17_l010_fix_clears : forall t, wft t -> l010_check (l010_fix t) = [].
-Proof. exact l010_fix_clears. Qed.
+Theorem C17_l010_fix_clears : forall t, wft t -> i_l010_check (i_l010_fix t) = [].
+Proof. exact (l010_fix_clears idstart idpart id_facts). Qed.
 Theorem C17_l003_fix_clears : forall t, i_l003_check (i_l003_fix t) = [].
-Proof. exact (fun t => l003_fix_clears_mx space sp_nodelim 1 t (le_n 1)). Qed.
+Proof. exact (fun t => l003_fix_clears_mx idstart idpart id_facts space sp_nodelim 1 t (le_n 1)). Qed.
 
 (* ---- exactness: a rule flags exactly the defect its name states, at an existing location ----
-   The lines are the classified lines [clines t] of the whole text: (starts in code?, characters with their class).
+   The lines are the classified lines [i_clines t] of the whole text: (starts in code?, characters with their class).
    L001 trailing whitespace: the line ends in a space or tab that is code or the tail of a -- comment. *)
 Theorem C17_l001_check_exact : forall t n col,
-  In (n, col) (l001_check t) <->
-  exists fl, nth_error (clines t) (n - 1) = Some fl /\ 1 <= n /\ ends_tblank (snd fl) /\
+  In (n, col) (i_l001_check t) <->
+  exists fl, nth_error (i_clines t) (n - 1) = Some fl /\ 1 <= n /\ ends_tblank (snd fl) /\
              col = S (blen (chars (trim_r tblank (snd fl)))).
-Proof. exact l001_check_exact. Qed.
-Theorem C17_l001_location : forall t n col, In (n, col) (l001_check t) ->
-  exists fl, nth_error (clines t) (n - 1) = Some fl /\ 1 <= n <= length (clines t) /\ 1 <= col <= S (blen (chars (snd fl))).
-Proof. exact l001_location. Qed.
+Proof. exact (l001_check_exact idstart idpart). Qed.
+Theorem C17_l001_location : forall t n col, In (n, col) (i_l001_check t) ->
+  exists fl, nth_error (i_clines t) (n - 1) = Some fl /\ 1 <= n <= length (i_clines t) /\ 1 <= col <= S (blen (chars (snd fl))).
+Proof. exact (l001_location idstart idpart). Qed.
 (* L002 mixed indentation: the code indentation of the line mixes tabs and spaces, or differs from the first pure style *)
 Theorem C17_l002_check_exact : forall t n col,
-  In (n, col) (l002_check t) <->
-  col = 1 /\ 1 <= n /\ exists fl, nth_error (clines t) (n - 1) = Some fl /\ l002_defect 0 (firstn (n - 1) (clines t)) (snd fl).
-Proof. exact l002_check_exact. Qed.
-Theorem C17_l002_location : forall t n col, In (n, col) (l002_check t) ->
-  1 <= n <= length (clines t) /\ col = 1 /\ exists fl, nth_error (clines t) (n - 1) = Some fl /\ take_l lblank (snd fl) <> [].
-Proof. exact l002_location. Qed.
+  In (n, col) (i_l002_check t) <->
+  col = 1 /\ 1 <= n /\ exists fl, nth_error (i_clines t) (n - 1) = Some fl /\ l002_defect 0 (firstn (n - 1) (i_clines t)) (snd fl).
+Proof. exact (l002_check_exact idstart idpart). Qed.
+Theorem C17_l002_location : forall t n col, In (n, col) (i_l002_check t) ->
+  1 <= n <= length (i_clines t) /\ col = 1 /\ exists fl, nth_error (i_clines t) (n - 1) = Some fl /\ take_l lblank (snd fl) <> [].
+Proof. exact (l002_location idstart idpart). Qed.
 (* L003 consecutive blank lines: line n starts a run of more than one blank line of code *)
 Theorem C17_l003_check_exact : forall t n col,
   In (n, col) (i_l003_check t) <->
-  col = 1 /\ 1 <= n /\ startsG space 0 (clines t) (n - 1) /\ 1 < run_from space (clines t) (n - 1).
-Proof. exact (l003_check_exact space 1). Qed.
-Theorem C17_l003_location : forall t n col, In (n, col) (i_l003_check t) -> 1 <= n <= length (clines t) /\ col = 1.
-Proof. exact (l003_location space 1). Qed.
+  col = 1 /\ 1 <= n /\ startsG space 0 (i_clines t) (n - 1) /\ 1 < run_from space (i_clines t) (n - 1).
+Proof. exact (l003_check_exact idstart idpart space 1). Qed.
+Theorem C17_l003_location : forall t n col, In (n, col) (i_l003_check t) -> 1 <= n <= length (i_clines t) /\ col = 1.
+Proof. exact (l003_location idstart idpart space 1). Qed.
 (* L007 keyword case: a code word (maximal run of letters, digits, '_' of code that starts with a letter or '_' where no word
    is running) that spells a keyword in another case; the column is the byte column of its first character *)
 Theorem C17_l007_check_exact : forall t n col,
   In (n, col) (i_l007_check t) <->
-  exists fl pre wd post, nth_error (clines t) (n - 1) = Some fl /\ 1 <= n /\ code_word letter digit (snd fl) pre wd post /\
+  exists fl pre wd post, nth_error (i_clines t) (n - 1) = Some fl /\ 1 <= n /\ code_word letter digit (snd fl) pre wd post /\
     word_viol upper keywords_tab (chars wd) = true /\ col = S (blen (chars pre)).
-Proof. exact (l007_check_exact letter digit upper keywords_tab). Qed.
+Proof. exact (l007_check_exact idstart idpart letter digit upper keywords_tab). Qed.
 Theorem C17_l007_location : forall t n col, In (n, col) (i_l007_check t) ->
-  exists fl, nth_error (clines t) (n - 1) = Some fl /\ 1 <= n <= length (clines t) /\ 1 <= col <= S (blen (chars (snd fl))).
-Proof. exact (l007_location letter digit upper keywords_tab). Qed.
+  exists fl, nth_error (i_clines t) (n - 1) = Some fl /\ 1 <= n <= length (i_clines t) /\ 1 <= col <= S (blen (chars (snd fl))).
+Proof. exact (l007_location idstart idpart letter digit upper keywords_tab). Qed.
 (* L010 redundant whitespace: a maximal run of two or more code spaces (cspace_run) that is not indentation (some byte up
    to the first space of the run is neither space nor tab); the column is the byte column of the first space of the run *)
 Theorem C17_l010_check_exact : forall t n col,
-  In (n, col) (l010_check t) <->
-  exists fl pre r post, nth_error (clines t) (n - 1) = Some fl /\ 1 <= n /\ cspace_run (snd fl) pre r post /\
+  In (n, col) (i_l010_check t) <->
+  exists fl pre r post, nth_error (i_clines t) (n - 1) = Some fl /\ 1 <= n /\ cspace_run (snd fl) pre r post /\
     indent_bytes (snd fl) col = false /\ col = S (blen (chars pre)).
-Proof. exact l010_check_exact. Qed.
-Theorem C17_l010_location : forall t n col, In (n, col) (l010_check t) ->
-  exists fl, nth_error (clines t) (n - 1) = Some fl /\ 1 <= n <= length (clines t) /\ 1 <= col <= S (blen (chars (snd fl))).
-Proof. exact l010_location. Qed.
+Proof. exact (l010_check_exact idstart idpart). Qed.
+Theorem C17_l010_location : forall t n col, In (n, col) (i_l010_check t) ->
+  exists fl, nth_error (i_clines t) (n - 1) = Some fl /\ 1 <= n <= length (i_clines t) /\ 1 <= col <= S (blen (chars (snd fl))).
+Proof. exact (l010_location idstart idpart). Qed.
 (* L005 long lines: a non-empty line that does not start with a comment opener and is longer than the limit, in bytes *)
 Theorem C17_l005_check_exact : forall mx t n col,
   In (n, col) (i_l005_check mx t) <->
-  exists fl, nth_error (clines t) (n - 1) = Some fl /\ 1 <= n /\ chars (snd fl) <> [] /\
+  exists fl, nth_error (i_clines t) (n - 1) = Some fl /\ 1 <= n /\ chars (snd fl) <> [] /\
             (starts2 45 45 (i_trim_space (chars (snd fl))) || starts2 47 42 (i_trim_space (chars (snd fl)))) = false /\
             mx < blen (chars (snd fl)) /\ col = S mx.
-Proof. exact (l005_check_exact space). Qed.
+Proof. exact (l005_check_exact idstart idpart space). Qed.
+
+(* ---- the string forms whose delimiters are longer than one character are read as the tokenizer reads them ----
+   [lit_code m l]: the first m characters of l are class 1 (literal), the scanner is in code after them.
+   Three apostrophes where a string literal may begin open a literal that runs up to and including the next three apostrophes
+   in a row ([tri_len]: the tokenizer's loop), so single and doubled quotes inside it are content. *)
+Theorem C17_triple_quote_read : forall a b c l, ap a = true -> ap b = true -> ap c = true ->
+  lex idstart idpart SCode (a :: b :: c :: l) = lit_code idstart idpart (3 + tri_len l) (a :: b :: c :: l).
+Proof. exact (triple_quoted_read idstart idpart). Qed.
+(* inside a '...' literal a doubled quote (any two quote characters of the apostrophe kind) is content: its second quote
+   never opens a triple-quoted string *)
+Theorem C17_doubled_quote_is_content : forall a b l, nq (cp a) = 39%N -> nq (cp b) = 39%N ->
+  lex idstart idpart (SLit 39) (a :: b :: l) = 1%N :: 1%N :: lex idstart idpart (SLit 39) l.
+Proof. exact (doubled_quote_read idstart idpart). Qed.
+(* a '$' followed by  tag '$'  (tag: empty, or an identifier) opens a literal that runs up to and including the first repetition of
+   the delimiter '$' tag '$' ([dol_len]: the tokenizer's loop): quotes, comment openers, other '$' inside it are content *)
+Theorem C17_dollar_quote_read : forall c nx tag, N.eqb (cp c) 36 = true -> dollar_tag idstart idpart nx = Some tag -> wft nx ->
+  lex idstart idpart SCode (c :: nx) =
+  lit_code idstart idpart (S (S (length tag)) + dol_len (dl :: tag ++ [dl]) (skipn (S (length tag)) nx)) (c :: nx).
+Proof. exact (dollar_quoted_read idstart idpart). Qed.
+(* any other '$' ("$1", "$ x", "$a b$", a tag that runs into the end of the text) is a character of code *)
+Theorem C17_dollar_not_opener_is_code : forall c nx, N.eqb (cp c) 36 = true -> dollar_tag idstart idpart nx = None ->
+  lstep idstart idpart SCode c nx = (0%N, SCode).
+Proof. exact (dollar_not_opener_read idstart idpart). Qed.
+(* hence (with the preservation theorems): the characters of literals - triple-quoted and dollar-quoted ones included - ,
+   quoted identifiers and comments are the same, in the same order, after  lint --auto-fix  and after the format action *)
+Theorem C17_cli_literals_kept : forall t, lit_chars (lex_reading (i_cli_fix t)) = lit_chars (lex_reading t).
+Proof. exact (fun t => f_equal lit_chars (C17_cli_tokens_preserved t)). Qed.
+Theorem C17_format_literals_kept : forall tab spaces final t,
+  lit_chars (lex_reading (i_format tab spaces final t)) = lit_chars (lex_reading t).
+Proof. exact (fun tab spaces final t => f_equal lit_chars (C17_format_tokens_preserved tab spaces final t)). Qed.
+(* and what L007 / L010 flag is a word / a run of spaces of code: never a character of a literal, quoted identifier or comment *)
+Theorem C17_l007_flags_code_only : forall t n col, In (n, col) (i_l007_check t) ->
+  exists fl pre wd post, nth_error (i_clines t) (n - 1) = Some fl /\ snd fl = pre ++ wd ++ post /\
+    col = S (blen (chars pre)) /\ wd <> [] /\ forallb code0 wd = true.
+Proof. exact (l007_flags_code idstart idpart letter digit upper keywords_tab). Qed.
+Theorem C17_l010_flags_code_only : forall t n col, In (n, col) (i_l010_check t) ->
+  exists fl pre r post, nth_error (i_clines t) (n - 1) = Some fl /\ snd fl = pre ++ r ++ post /\
+    col = S (blen (chars pre)) /\ 2 <= length r /\ forallb code0 r = true.
+Proof. exact (l010_flags_code idstart idpart). Qed.
 
 Print Assumptions C17_l001_tokens_preserved.
 Print Assumptions C17_l002_tokens_preserved.
@@ -183,6 +222,14 @@ Print Assumptions C17_l010_check_exact.
 Print Assumptions C17_l010_location.
 Print Assumptions C17_l007_check_exact.
 Print Assumptions C17_l007_location.
+Print Assumptions C17_triple_quote_read.
+Print Assumptions C17_doubled_quote_is_content.
+Print Assumptions C17_dollar_quote_read.
+Print Assumptions C17_dollar_not_opener_is_code.
+Print Assumptions C17_cli_literals_kept.
+Print Assumptions C17_format_literals_kept.
+Print Assumptions C17_l007_flags_code_only.
+Print Assumptions C17_l010_flags_code_only.
 
 (* ---- non-vacuity: concrete, non-trivial texts; the fixers do change them, the literals are kept ---- *)
 Local Open Scope N_scope.
@@ -191,9 +238,22 @@ Definition ex_bytes : list N :=   (* "select  'a  \n\n\n\tb  ' \n\n\n\tfrom t\t"
 Example ex_cli : encode (i_cli_fix (decode ex_bytes)) =
   [83;69;76;69;67;84;32;39;97;32;32;10;10;10;9;98;32;32;39;10;10;32;32;32;32;70;82;79;77;32;116].
 Proof. vm_compute. reflexivity. Qed.
-Example ex_l001_flags : l001_check (decode ex_bytes) = [(4, 6); (7, 8)]%nat.
+Example ex_l001_flags : i_l001_check (decode ex_bytes) = [(4, 6); (7, 8)]%nat.
 Proof. vm_compute. reflexivity. Qed.
 Example ex_l007_flags : i_l007_check (decode ex_bytes) = [(1, 1); (7, 2)]%nat.
 Proof. vm_compute. reflexivity. Qed.
-Example ex_l010_flags : l010_check (decode ex_bytes) = [(1, 7)]%nat.
+Example ex_l010_flags : i_l010_check (decode ex_bytes) = [(1, 7)]%nat.
+Proof. vm_compute. reflexivity. Qed.
+
+(* a text with a dollar-quoted and a triple-quoted string: "select  $q$ a  'b $q$,  '''it's  x'''  from  t" *)
+Definition ex_lit : list N :=
+  [115;101;108;101;99;116;32;32;36;113;36;32;97;32;32;39;98;32;36;113;36;44;32;32;39;39;39;105;116;39;115;32;32;120;39;39;39;32;32;102;114;111;109;32;32;116].
+Example ex_lit_classes : lex idstart idpart SCode (decode ex_lit) =
+  [0;0;0;0;0;0;0;0;1;1;1;1;1;1;1;1;1;1;1;1;1;0;0;0;1;1;1;1;1;1;1;1;1;1;1;1;1;0;0;0;0;0;0;0;0;0].
+Proof. vm_compute. reflexivity. Qed.
+(* lint --auto-fix on it: "SELECT $q$ a  'b $q$, '''it's  x''' FROM t" (the spaces inside both strings are kept) *)
+Example ex_lit_cli : encode (i_cli_fix (decode ex_lit)) =
+  [83;69;76;69;67;84;32;36;113;36;32;97;32;32;39;98;32;36;113;36;44;32;39;39;39;105;116;39;115;32;32;120;39;39;39;32;70;82;79;77;32;116].
+Proof. vm_compute. reflexivity. Qed.
+Example ex_lit_l010_flags : i_l010_check (decode ex_lit) = [(1, 7); (1, 23); (1, 38); (1, 44)]%nat.
 Proof. vm_compute. reflexivity. Qed.
